@@ -23,7 +23,7 @@ from sim.worlds import build, catalog, gen
 NAME = "purity"
 PROPERTY = "C11"
 
-ALL_TEMPLATES = ["structures", "dataset", "inversion", "simulator", "vis_interface", "triangles"]
+ALL_TEMPLATES = ["structures", "dataset", "inversion", "simulator", "vis_interface", "triangles", "image_mesh", "interferometer"]
 CONF_KNOBS = {
     "positive_only_uses_p_initial": [True, False],
     "use_positive_only_solver": [True, False],
@@ -36,6 +36,7 @@ VALUE_TYPES = ("Visibilities", "VisibilitiesNoiseMap", "Grid2D", "Array2D", "Ker
 _INV_SOLVER = ["reconstruction", "log_det_curvature_reg_matrix_term", "log_det_regularization_matrix_term", "regularization_term", "mapped_reconstructed_data",
                "reconstruction_noise_map", "mapped_reconstructed_image", "reconstruction_reduced"]
 SOLVER_READS = {
+    "InversionInterferometerMapping": _INV_SOLVER,
     "InversionImagingMapping": _INV_SOLVER,
     "InversionImagingWTilde": _INV_SOLVER,
     "FitStub": ["log_evidence", "figure_of_merit", "chi_squared", "log_likelihood_with_regularization"],
@@ -141,7 +142,7 @@ class PuritySim:
 
     def gen_knobs(self):
         r = self.streams["world"]
-        t = [x for x in ALL_TEMPLATES if r.random() < {"structures": 0.6, "dataset": 0.6, "inversion": 0.55, "simulator": 0.25, "vis_interface": 0.15, "triangles": 0.15}[x]]
+        t = [x for x in ALL_TEMPLATES if r.random() < {"structures": 0.6, "dataset": 0.6, "inversion": 0.55, "simulator": 0.25, "vis_interface": 0.15, "triangles": 0.15, "image_mesh": 0.2, "interferometer": 0.25}[x]]
         if not t:
             t = [r.choice(["structures", "inversion", "dataset"])]
         for extra in self.cfg.get("force_templates", []):
@@ -204,7 +205,7 @@ class PuritySim:
     # -- the run ----------------------------------------------------------------------------------
 
     def run(self):
-        boot.boot()
+        boot.boot(pylops_standin=True)
         for k, v in self.knobs.get("conf", {}).items():
             boot.set_conf(["general", "inversion", k], v)
         self.clock = seams.install_clock() if self.knobs.get("profile_on") else None
@@ -447,7 +448,7 @@ class PuritySim:
             else:
                 out = catalog.perform(self.world.env, target, q, world=self.world, node_id=target)
                 tree = compare.canon(out)
-        except Exception as e:  # noqa: BLE001 - exceptions are outcomes
+        except (Exception, SystemExit) as e:  # noqa: BLE001 - exceptions are outcomes
             exc = e
             tree = ("exc", type(e).__name__)
         key = (target, json.dumps(q, sort_keys=True))
@@ -533,7 +534,7 @@ class PuritySim:
             if rebuilt is not None:
                 try:
                     t2 = compare.canon(getattr(rebuilt, q["name"]))
-                except Exception as e:  # noqa: BLE001
+                except (Exception, SystemExit) as e:  # noqa: BLE001
                     t2 = ("exc", type(e).__name__)
                 self.stats["i3_checked"] += 1
                 self.stats["checked"] += 1
@@ -651,11 +652,22 @@ class PuritySim:
 
     def read_op(self, client, target, rs):
         obj = self.world.env[target]
-        if rs.random() < 0.3:
+        # repetition: "the same value whatever the order and NUMBER of earlier accesses" - re-issue an earlier read verbatim
+        hist = client.setdefault("history", [])
+        if hist and rs.random() < 0.12:
+            old = rs.choice(hist)
+            if old["target"] in self.world.env:
+                self.probe("read_repeated_verbatim")
+                return dict(old, client=client["name"])
+        names = catalog.readable_names(obj)
+        p_call = 0.3 if len(names) > 12 else 0.6
+        if rs.random() < p_call:
             calls = catalog.curated_calls(obj, rs, self.nodes_by_type())
             if calls:
-                return {"op": "read", "client": client["name"], "target": target, "q": rs.choice(calls)}
-        names = catalog.readable_names(obj)
+                op = {"op": "read", "client": client["name"], "target": target, "q": rs.choice(calls)}
+                hist.append(op)
+                del hist[:-10]
+                return op
         if not names:
             return None
         if rs.random() < 0.2:
@@ -824,7 +836,8 @@ STUBS = [
     "FuncList: 4-line user subclass of AbstractLinearObjFuncList returning a given mapping matrix",
     "FitStub: subclass of FitImaging returning a given model_data / a given inversion",
     "SimClock behind autoarray.numba_util.time when the profiling knob is on",
-    "numba absent: every @jit function runs as the Python it is written in; pylops/pynufft/Voronoi C library absent: no TransformerDFT/NUFFT, Interferometer dataset or MapperVoronoi nodes",
+    "pylops stand-in: a 3-line `pylops.LinearOperator` base class installed before `import autoarray` so that TransformerDFT / Interferometer / InversionInterferometerMapping construct and run their own numpy code; pylops' solvers are not provided and never exercised",
+    "numba absent: every @jit function runs as the Python it is written in; pynufft and the Voronoi C library absent: no TransformerNUFFT or MapperVoronoi nodes",
 ]
 ASSUMPTIONS = [
     "exact (bitwise, NaN-aware) equality between two executions of the same code path is sound: the library was measured bit-identical across fresh interpreters, PYTHONHASHSEED values and thread counts",
